@@ -257,3 +257,19 @@ func (r RecordingIdentity) Unwrap(stanzas []*age.Stanza) ([]byte, error) {
 	r.Mu.Unlock()
 	return r.Inner.Unwrap(stanzas)
 }
+
+// NoStanzaRecipient declares labels like LabelledRecipient and contributes no stanza (AgeCore recipient kind "Z").
+type NoStanzaRecipient struct {
+	Present bool
+	Labels  []string
+}
+
+func (l NoStanzaRecipient) Wrap(fileKey []byte) ([]*age.Stanza, error) { return nil, nil }
+func (l NoStanzaRecipient) WrapWithLabels(fileKey []byte) ([]*age.Stanza, []string, error) {
+	if !l.Present {
+		return nil, nil, nil
+	}
+	ls := make([]string, len(l.Labels))
+	copy(ls, l.Labels)
+	return nil, ls, nil
+}
